@@ -48,3 +48,39 @@ package benchunit
 //@   ensures unit == "MB/s" ==> tidiedUnit == "B/s" && bits(tidiedValue, value * 1e6)
 //@   ensures plainUnit(unit) ==> tidiedUnit == unit && bits(tidiedValue, value * 1.0)
 //@   ensures unit != "ns/op" && unit != "MB/s" && !plainUnit(unit) ==> tidiedUnit == tidyUnitUncached_0(unit) && bits(tidiedValue, value * tidyUnitUncached_1(unit))
+
+// ---------------------------------------------------------------------------
+// Scaling (C10)
+
+// pickFrom / fallbackFrom: the scale chosen for a smallest non-zero magnitude
+// m, scanning the class's prefix table from entry i: the first prefix whose
+// rounding threshold m reaches, with 1, 2 or 3 decimals; below the smallest
+// prefix, 3+i decimals for the first sub-threshold reached.
+//@ rec func fallbackFrom(v float64, f factor, i int) Scaler = (i < 0 || i >= len(sigfigs)) ? mkstruct(Scaler, 0, 0.0, "") :
+//@     ((v >= sigfigs[i] || i == len(sigfigs)-1) ? mkstruct(Scaler, i + sigfigsBase, f.factor, f.prefix) : fallbackFrom(v, f, i+1))
+//@ rec func pickFrom(m float64, fs []factor, i int) Scaler = (i < 0 || i >= len(fs)) ? fallbackFrom(m / fs[len(fs)-1].factor, fs[len(fs)-1], 0) :
+//@     (m >= fs[i].t100 ? mkstruct(Scaler, 1, fs[i].factor, fs[i].prefix) :
+//@      (m >= fs[i].t10 ? mkstruct(Scaler, 2, fs[i].factor, fs[i].prefix) :
+//@       (m >= fs[i].t1 ? mkstruct(Scaler, 3, fs[i].factor, fs[i].prefix) : pickFrom(m, fs, i+1))))
+
+// A scale shared by several values is the one for the smallest non-zero magnitude.
+//@ func CommonScale(vals []float64, cls Class) (s Scaler)
+//@   props C10
+//@   requires (cls == Decimal || cls == Binary) && forall a int :: 0 <= a < len(vals) ==> !isNaN(vals[a])
+//@   ensures (forall a int :: 0 <= a < len(vals) ==> vals[a] == 0.0) ==> s == mkstruct(Scaler, 3, 1.0, "")
+//@   ensures !(forall a int :: 0 <= a < len(vals) ==> vals[a] == 0.0) ==> exists k int :: 0 <= k < len(vals) && vals[k] != 0.0 &&
+//@             (forall a int :: 0 <= a < len(vals) && vals[a] != 0.0 ==> fabs(vals[k]) <= fabs(vals[a])) &&
+//@             s == pickFrom(fabs(vals[k]), cls == Decimal ? siFactors : iecFactors, 0)
+//@   loop 1:
+//@     invariant 0 <= idx() <= len(vals) && !isNaN(min) && min >= 0.0
+//@     invariant min == 0.0 ==> forall a int :: 0 <= a < idx() ==> vals[a] == 0.0
+//@     invariant min != 0.0 ==> exists k int :: 0 <= k < idx() && vals[k] != 0.0 && bits(min, fabs(vals[k])) &&
+//@                 (forall a int :: 0 <= a < idx() && vals[a] != 0.0 ==> min <= fabs(vals[a]))
+//@     decreases len(vals) - idx()
+//@   loop 2:
+//@     invariant 0 <= idx() <= len(factors) && len(factors) > 0 && factors === (cls == Decimal ? siFactors : iecFactors)
+//@     invariant pickFrom(min, factors, 0) == pickFrom(min, factors, idx())
+//@     decreases len(factors) - idx()
+//@   loop 3:
+//@     invariant 0 <= idx() <= len(sigfigs) && fallbackFrom(val, factor, 0) == fallbackFrom(val, factor, idx())
+//@     decreases len(sigfigs) - idx()
